@@ -90,19 +90,20 @@ def run(case):
         elif op == "make_vjp":
             vjp, val = make_vjp(f, pos)(*args, **kw)
             r = vjp(vout)
-            o["extra_ok"] = bool(not isbox(val) and onp.array_equal(val, plain))
+            o["extra_ok"] = bool(not isbox(val) and onp.array_equal(val, plain) and onp.shape(val) == onp.shape(plain) and type(val) is type(plain))
         elif op == "make_ggnvp":
             r = make_ggnvp(f, f_argnum=pos)(*args, **kw)(vin)
         elif op == "deriv":
             r = deriv(f, pos)(*args, **kw)
         elif op == "make_jvp":
             val, r = make_jvp(f, pos)(*args, **kw)(vin)
-            o["extra_ok"] = bool(not isbox(val) and onp.array_equal(val, plain))
+            o["extra_ok"] = bool(not isbox(val) and onp.array_equal(val, plain) and onp.shape(val) == onp.shape(plain) and type(val) is type(plain))
         elif op == "make_jvp_reversemode":
             r = make_jvp_reversemode(f, pos)(*args, **kw)(vin)
         elif op == "value_and_grad":
             val, r = value_and_grad(f, pos)(*args, **kw)
-            o["extra_ok"] = bool(not isbox(val) and onp.array_equal(val, plain))
+            # the value is the plain call's value: same entries, same shape, same type (np.float64 stays np.float64, (1,1) stays (1,1))
+            o["extra_ok"] = bool(not isbox(val) and onp.array_equal(val, plain) and onp.shape(val) == onp.shape(plain) and type(val) is type(plain))
         elif op == "grad_and_aux":
             aux_obj = {"tag": onp.array([1.0, 2.0, 3.0]), "n": 3.5}
             r, aux = grad_and_aux(lambda *a, **k: (f(*a, **k), aux_obj), pos)(*args, **kw)
